@@ -11,6 +11,11 @@ Sub-checks (all cases are plain data; DendroPy objects are built inside the func
   history  @given.  ONE tree object scored with a sequence of calls over 1-4 different matrices (different types,
            widths, gap treatment, weights; repeats; optional fitch_up_pass in between); every call must return what a
            freshly built copy of tree + matrix returns (and what the oracle says).
+  concat   @given.  Multi-alphabet route: 2-3 StandardCharacterMatrix partitions coded over DIFFERENT state alphabets
+           (new_standard_state_alphabet("01"), ("012"), ("0123"), ("3210"), ("23"), ...) on one namespace, joined with
+           StandardCharacterMatrix.concatenate (cells keep the state objects of their own alphabets).  The concatenated
+           score must equal the oracle computed column by column with that column's own alphabet, the per-character
+           list must be those minima, and the total must equal the sum of the partition scores.
   final    @given.  fitch_down_pass + fitch_up_pass on a rooted bifurcating tree with unambiguous cells: the final
            state set of every internal node is the set of states the node takes in at least one most-parsimonious
            reconstruction (Fitch 1971 / Hartigan 1973), computed here by a two-directional Sankoff pass.
@@ -34,7 +39,10 @@ CONFIG = {
              "default.  score: non-trivial = tree with >= 3 leaves and at least one column needing >= 1 change; "
              "distinct = (shape, rows, type, weights, gap flag).  history: non-trivial = some call whose expected score "
              "differs from the expected score of the preceding call on the same tree object; distinct = whole case.  "
-             "final: non-trivial = some internal non-root node whose final set differs from its down-pass set."),
+             "final: non-trivial = some internal non-root node whose final set differs from its down-pass set.  "
+             "concat: 2-3 standard partitions over different alphabets (symbol sets 01, 012, 0123, 3210, 23, 10, "
+             "0-9, ab, ba0) joined by StandardCharacterMatrix.concatenate; non-trivial = >= 2 distinct alphabets, a gap "
+             "or missing symbol in columns of two different alphabets, and >= 1 change."),
     "assumptions": [
         "ambiguity tables are hard-coded here from the library's declared alphabets: IUPAC nucleotide codes, X as a "
         "synonym of N for DNA/RNA, protein B={D,N}, Z={E,Q}, X=all 20 residues and '*'",
@@ -49,6 +57,9 @@ CONFIG = {
         "nodes win over the map, so the history clause is asserted for parsimony_score (and for the attribute-free "
         "route) only",
         "the final-set clause is asserted only for cells that are single states (or the gap as its own state)",
+        "concatenate() keeps each cell's StateIdentity of its source alphabet (observed; the fresh default alphabet "
+        "of the result - C09 known finding - plays no part in scoring); every column is scored over the alphabet of "
+        "the partition it came from; the namespace holds exactly the tree's taxa, as concatenate requires",
     ],
 }
 
@@ -95,6 +106,10 @@ TYPES = {
     "standard": _mk_type("StandardCharacterMatrix", "0123456789", {}, {}, False),
 }
 DTYPES = ["dna", "dna", "protein", "standard", "rna"]
+# standard alphabets over different symbol sets / orders, used by the multi-alphabet (concatenate) route
+STD_FUNDS = ["01", "012", "0123", "3210", "23", "10", "0123456789", "ab", "ba0"]
+for _f in STD_FUNDS:
+    TYPES["std:" + _f] = dict(_mk_type("StandardCharacterMatrix", _f, {}, {}, False), alphabet_fund=_f)
 INF = 10 ** 9
 
 
@@ -253,10 +268,13 @@ def build_tree(spec, ns, taxa, rooting):
 def build_matrix(m, ns, taxa):
     import dendropy
     cls = getattr(dendropy, TYPES[m["dtype"]]["cls"])
+    kw = {}
+    if TYPES[m["dtype"]].get("alphabet_fund"):
+        kw["default_state_alphabet"] = dendropy.new_standard_state_alphabet(TYPES[m["dtype"]]["alphabet_fund"])
     d = {}
     for i, row in enumerate(list(m["rows"]) + list(m.get("extra_rows") or [])):
         d[taxa[i]] = row
-    return cls.from_dict(d, taxon_namespace=ns)
+    return cls.from_dict(d, taxon_namespace=ns, **kw)
 
 
 def matrix_symbols(mat, taxa, n):
@@ -546,6 +564,90 @@ def check_history(ctx, case):
 
 
 # ---------------------------------------------------------------------------
+# sub-check: matrices mixing state alphabets (concatenate)
+# ---------------------------------------------------------------------------
+
+def check_concat(ctx, case):
+    import dendropy
+    spec, rooting, parts = case["spec"], case["rooting"], case["parts"]
+    gam_arg, weights = case["gam"], case["weights"]
+    gam = eff_gam(gam_arg)
+    n = len(parts[0]["rows"])
+    widths = [len(p["rows"][0]) for p in parts]
+    ns, taxa, _ = build_ns(n)
+    tree = build_tree(spec, ns, taxa, rooting)
+    rt = snap(ctx, tree, "concat base")
+    rdeg, ideg = degree_profile(rt)
+    if rdeg != (2 if rooting == "rooted" else 3) or (ideg - set([2])):
+        raise runner.HarnessError("generator produced a tree outside the domain: %r" % (case,))
+    mats = [build_matrix(p, ns, taxa) for p in parts]
+    combined = dendropy.StandardCharacterMatrix.concatenate(mats)
+    desc = lambda: "tree=%s parts=%r weights=%r gaps_as_missing=%r" % (
+        rt.canon(ordered=True), [(p["dtype"], p["rows"]) for p in parts], weights, gam_arg)
+    # what concatenate is documented to deliver: same taxa, columns side by side
+    ctx.check(len(combined) == n and all(len(combined[taxa[i]]) == sum(widths) for i in range(n)),
+              "concatenate puts the partitions' columns side by side", "C16.concat_shape", desc)
+    got_syms = matrix_symbols(combined, taxa, n)
+    want_syms = [list("".join(p["rows"][i] for p in parts)) for i in range(n)]
+    ctx.check(got_syms == want_syms, "concatenate keeps every cell's symbol", "C16.concat_shape",
+              lambda: "symbols %r want %r" % (got_syms, want_syms))
+
+    changes = []
+    exp_all = []
+    for p in parts:
+        e = expected_changes(rt, p, gam)
+        exp_all.extend(e)
+        changes.extend(x[0] for x in e)
+    if n <= 5:
+        for c, (ch, sets, states) in enumerate(exp_all):
+            b = brute_changes(rt, sets, states)
+            if b is not None and b != ch:
+                raise runner.HarnessError("oracle disagreement: Sankoff %d, brute force %d; %s column %d" % (
+                    ch, b, desc(), c))
+    want_list = weighted(changes, weights)
+    want = sum(want_list)
+    tri = "" if rooting == "rooted" else "_trifurcating_seed"
+
+    got, lst = call_score(tree, combined, gam_arg, weights, True)
+    ctx.check(got == want, "score of a matrix mixing state alphabets equals the weighted minimum number of changes",
+              "C16.concat_score_minimal" + tri,
+              lambda: "got %r want %r (per column minima %r); %s" % (got, want, changes, desc()))
+    ctx.check(lst == want_list and sum(lst) == got,
+              "per-character scores of a matrix mixing state alphabets are the weighted per-column minima",
+              "C16.concat_per_char" + tri, lambda: "got %r (total %r) want %r; %s" % (lst, got, want_list, desc()))
+    # additivity over the partitions, each scored on its own fresh tree with its slice of the weights
+    part_scores = []
+    pos = 0
+    for p, mt, w in zip(parts, mats, widths):
+        wslice = None if weights is None else weights[pos:pos + w]
+        pos += w
+        sc, _ = call_score(build_tree(spec, ns, taxa, rooting), mt, gam_arg, wslice, False)
+        part_scores.append(sc)
+    ctx.check(got == sum(part_scores), "score of the concatenated matrix equals the sum of the partition scores",
+              "C16.concat_equals_partition_sum" + tri,
+              lambda: "concatenated %r, partitions %r; %s" % (got, part_scores, desc()))
+
+    # -- bookkeeping
+    funds = [p["dtype"] for p in parts]
+    ctx.cls("concat.parts:%d" % len(parts))
+    ctx.cls("concat.distinct_alphabets:%d" % len(set(funds)))
+    cols = []
+    for p in parts:
+        for c in range(len(p["rows"][0])):
+            cols.append((p["dtype"], set(r[c] for r in p["rows"])))
+    shared = False
+    for sym in (GAP, MISSING):
+        if len(set(f for f, ss in cols if sym in ss)) >= 2:
+            shared = True
+    if shared:
+        ctx.cls("concat.gap_or_missing_in_columns_of_two_alphabets")
+    ctx.cls("concat.leaves:" + size_class(n))
+    if len(set(funds)) >= 2 and shared and sum(changes) >= 1:
+        ctx.nontrivial(["concat", rt.canon(ordered=True), parts, weights, gam_arg])
+    ctx.sample("concat", case)
+
+
+# ---------------------------------------------------------------------------
 # sub-check: final state sets (up pass)
 # ---------------------------------------------------------------------------
 
@@ -594,7 +696,7 @@ def check_final(ctx, case):
     ctx.sample("final", case)
 
 
-SUBCHECKS = {"score": check_score, "history": check_history, "final": check_final}
+SUBCHECKS = {"score": check_score, "history": check_history, "final": check_final, "concat": check_concat}
 
 
 # ---------------------------------------------------------------------------
@@ -625,8 +727,8 @@ def trees(draw, max_leaves, rootings=("rooted", "unrooted")):
 
 
 @st.composite
-def matrices(draw, n, max_chars, unambiguous=False):
-    dtype = draw(st.sampled_from(DTYPES))
+def matrices(draw, n, max_chars, unambiguous=False, dtypes=None):
+    dtype = draw(st.sampled_from(dtypes or DTYPES))
     T = TYPES[dtype]
     nchar = draw(st.integers(1, max_chars))
     cols = []
@@ -689,6 +791,21 @@ def history_cases(draw, max_leaves, max_chars):
 
 
 @st.composite
+def concat_cases(draw, max_leaves, max_chars):
+    spec, rooting, n = draw(trees(max_leaves))
+    k = draw(st.integers(2, 3))
+    std = ["std:" + f for f in STD_FUNDS]
+    parts = []
+    for j in range(k):
+        m = draw(matrices(n, max(1, max_chars // 2), dtypes=std))
+        parts.append({"dtype": m["dtype"], "rows": m["rows"]})
+    total = sum(len(p["rows"][0]) for p in parts)
+    weights = draw(st.one_of(st.none(), st.lists(st.integers(0, 5), min_size=total, max_size=total)))
+    gam = draw(st.sampled_from([True, False, False, None]))
+    return {"spec": spec, "rooting": rooting, "parts": parts, "weights": weights, "gam": gam}
+
+
+@st.composite
 def final_cases(draw, max_leaves, max_chars):
     spec, rooting, n = draw(trees(max_leaves, rootings=("rooted",)))
     m = draw(matrices(n, max_chars, unambiguous=True))
@@ -704,6 +821,8 @@ def run(ctx):
     n_score = 2400 if quick else 20000
     n_hist = 1200 if quick else 10000
     n_final = 600 if quick else 6000
+    n_concat = 1000 if quick else 8000
     runner.run_given(ctx, "score", score_cases(max_leaves, max_chars), check_score, n_score // ctx.nshards)
     runner.run_given(ctx, "history", history_cases(max_leaves, max_chars), check_history, n_hist // ctx.nshards)
     runner.run_given(ctx, "final", final_cases(max_leaves, max_chars), check_final, n_final // ctx.nshards)
+    runner.run_given(ctx, "concat", concat_cases(max_leaves, max_chars), check_concat, n_concat // ctx.nshards)
